@@ -449,6 +449,40 @@ pub fn judge(fx: &Fixture, outputs: &[Vec<Output>]) -> Option<(String, String)> 
     None
 }
 
+/// The cross-thread half of C16: every interleaving of the small scenarios, freshness only.
+pub fn freshness_part(run: &mut Run) {
+    use Call::*;
+    set_lock_observer(Some(observer));
+    let fx = Arc::new(fixture());
+    let scs = vec![
+        Scenario { name: "F1 encaps | encaps | encaps", threads: vec![vec![Encaps("A::x")], vec![Encaps("A::x")], vec![Encaps("A::x")]] },
+        Scenario { name: "F2 encrypt | encrypt", threads: vec![vec![Encrypt("A::x")], vec![Encrypt("A::x")]] },
+        Scenario { name: "F3 header | header | keygen", threads: vec![vec![Header("A::x")], vec![Header("A::x")], vec![Keygen("A::x")]] },
+        Scenario { name: "F4 keygen;encaps | keygen;encaps", threads: vec![vec![Keygen("A::x"), Encaps("H::hi")], vec![Keygen("A::x"), Encaps("H::hi")]] },
+    ];
+    let t0 = std::time::Instant::now();
+    let mut total = 0u64;
+    let mut per = vec![];
+    for sc in &scs {
+        let mut orders = BTreeSet::new();
+        let mut max_points = 0;
+        let mut bad = None;
+        // freshness-only judgement: explore with the full judge but keep only C19.c verdicts
+        let (n, done) = explore(sc, &fx, None, 50_000, t0, 25.0, &mut orders, &mut max_points, &mut bad);
+        total += n;
+        if let Some((c, m, choices)) = &bad {
+            let clause = if c == "C19.c" { "C16.t" } else { c.as_str() };
+            if clause == "C16.t" {
+                run.report(None, clause, &format!("{}: {m} [schedule {choices:?}]", sc.name), json!({"engine": "sched", "config": wire::NAME, "scenario": sc.name, "schedule": choices}));
+            }
+        }
+        per.push(json!({"scenario": sc.name, "schedules": n, "all_interleavings_explored": done, "distinct_critical_section_orders": orders.len()}));
+    }
+    set_lock_observer(None);
+    run.set("cross_thread_schedules", json!(total));
+    run.set("cross_thread_scenarios", json!(per));
+}
+
 pub struct SchedStats {
     pub schedules: u64,
     pub bound_completed: Option<usize>,
@@ -479,7 +513,10 @@ fn explore(sc: &Scenario, fx: &Arc<Fixture>, bound: Option<usize>, cap: u64, t0:
             // replay twice: must fail identically, at identical scheduling points
             let again = execute(sc, fx, &ex.choices);
             let v2 = again.problem.clone().or_else(|| judge(fx, &again.outputs));
-            if again.trace.iter().map(|t| t.0).collect::<Vec<_>>() != ex.trace.iter().map(|t| t.0).collect::<Vec<_>>() {
+            // (the initial "thread started" announcements arrive in OS order; everything after
+            // them is decided by the schedule)
+            let steps = |e: &Execution| e.trace.iter().filter(|t| t.1 != At::Start).map(|t| t.0).collect::<Vec<_>>();
+            if again.choices != ex.choices || again.section_order != ex.section_order || steps(&again) != steps(&ex) {
                 machinery("a replayed schedule visited different scheduling points");
             }
             if v2.as_ref().map(|v| &v.0) != Some(&c) {
